@@ -309,6 +309,17 @@ def draw_time(d, kind):
     y = d.int(1, 9999) if kind == 'GeneralizedTime' else None
     mo, da = d.int(1, 12), d.int(1, 28)
     h, mi, s = d.int(0, 23), d.int(0, 59), d.int(0, 59)
+    if d.pct(25):
+        # calendar and clock boundaries: last day of a month (29 February in a leap year), last second of a day
+        mo = d.pick([1, 2, 2, 3, 4, 6, 9, 11, 12, 12])
+        da = {2: 29}.get(mo, 30 if mo in (4, 6, 9, 11) else 31)
+        if mo == 2:
+            if y is None:
+                y2 = d.pick([0, 4, 96, 72, 68, 48, 52])
+                return '%02d0229%02d%02d%02dZ' % (y2, h, mi, s)
+            y = d.pick([4, 400, 1600, 1996, 2000, 2024, 2400, 9996])
+        if d.pct(50):
+            h, mi, s = d.pick([(23, 59, 59), (0, 0, 0), (23, 59, 0), (0, 0, 59)])
     if kind == 'UTCTime':
         return '%02d%02d%02d%02d%02d%02dZ' % (d.int(0, 99), mo, da, h, mi, s)
     base = '%04d%02d%02d%02d%02d%02d' % (y, mo, da, h, mi, s)
@@ -449,6 +460,11 @@ def draw_value(d, T):
         return out
     if k in ir.OF_KINDS:
         n = d.pick([0, 1, 1, 2, 2, 3, 4])
+        if T['of']['k'] in ('BOOLEAN', 'INTEGER', 'NULL', 'ENUMERATED') and d.pct(d.cfg.get('many_elems_pct', 3)):
+            # element counts around the one-octet boundaries (contents of 127 / 128 / 256 octets and more)
+            n = d.pick([42, 43, 63, 64, 85, 86, 127, 128, 129, 255, 256, 257])
+            few = [draw_value(d, T['of']) for _ in range(5)]
+            return [few[(i * 7 + i // 5) % 5] for i in range(n)]
         return [draw_value(d, T['of']) for _ in range(n)]
     if k == 'CHOICE':
         a = d.pick(T['alts'])
